@@ -34,7 +34,7 @@ def attack_program(fam, body, attr=None, prelude='', **kw):
     return src, lines_before + 1
 
 
-def c05_witnesses():
+def c05_witnesses(tier='quick'):
     """list of witness dicts: id, cfg, src, expect, line (attack line or None), what"""
     ws = []
 
@@ -126,7 +126,7 @@ def c05_witnesses():
     return ws
 
 
-def c07_witnesses():
+def c07_witnesses(tier='quick'):
     ws = []
 
     def add(wid, src, expect, line=None, what=''):
@@ -153,7 +153,7 @@ def c07_witnesses():
     return ws
 
 
-def c12_witnesses():
+def c12_witnesses(tier='quick'):
     ws = []
 
     def add(wid, src, expect, what=''):
@@ -182,4 +182,54 @@ def c12_witnesses():
         add(f'c12-{t}-ord-needs-eq', src, {'fail': None, 'msg': r'Eq'}, 'Ord requires Eq')
         src = pre + f'#[nutype(validate(finite), derive(Debug, Eq))]\npub struct T({t});\n'
         add(f'c12-{t}-eq-needs-partialeq', src, {'fail': None, 'msg': r'PartialEq'}, 'Eq requires PartialEq')
+    return ws
+
+
+def c15_witnesses(tier='quick'):
+    """the whole no_std corpus crate compiled by stable rustc against nutype built with default-features = false"""
+    from . import corpus
+    crates = corpus.build(tier)
+    ws = []
+    for cn, c in crates.items():
+        if c['std']:
+            continue
+        src = corpus.crate_source(c)
+        ws.append({'id': f'c15-{cn}', 'cfg': 'nostd', 'src': src, 'expect': 'pass', 'line': None,
+                   'what': f'#![no_std] crate with {len(c["decls"])} integer/float/other declarations compiles against nutype without the std feature'})
+    # positive control: the same setup must reject a std path (keeps the witness honest)
+    ws.append({'id': 'c15-control-std-path', 'cfg': 'nostd', 'src': HEAD_NOSTD + 'pub fn f() -> ::std::vec::Vec<u8> { ::std::vec::Vec::new() }\n',
+               'expect': {'fail': ['E0433']}, 'line': None, 'what': 'control: a `::std::` path does not resolve in the no_std witness setup'})
+    ws.append({'id': 'c15-control-twin', 'cfg': 'nostd', 'src': HEAD_NOSTD + 'pub fn f() -> ::alloc::vec::Vec<u8> { ::alloc::vec::Vec::new() }\n',
+               'expect': 'pass', 'line': None, 'what': 'control twin: the `::alloc::` spelling compiles'})
+    return ws
+
+
+def c02_witnesses(tier='quick'):
+    """syntactic forms the macro cannot honour must be rejected; the faithful spellings must be accepted"""
+    ws = []
+    pre = HEAD + 'use nutype::nutype;\npub const K: i32 = 5;\npub const KF: f64 = 2.5;\nmod a { pub fn f(x: i32) -> i32 { x } pub fn p(x: &i32) -> bool { *x > 0 } }\n'
+
+    def add(wid, body, expect, what):
+        ws.append({'id': 'c02-' + wid, 'cfg': 'full', 'src': pre + body, 'expect': expect, 'line': None, 'what': what})
+    add('with-path-then-closure', '#[nutype(sanitize(with = a::|x| x + 1))]\npub struct T(i32);\n', {'fail': None, 'msg': r'(?i)expected'},
+        '`with = a::|x| x + 1` is neither a path nor a closure and is refused (not accepted as the closure)')
+    add('with-path-twin', '#[nutype(sanitize(with = a::f))]\npub struct T(i32);\n', 'pass', 'twin: `with = a::f` is accepted')
+    add('with-closure-twin', '#[nutype(sanitize(with = |x| x + 1))]\npub struct T(i32);\n', 'pass', 'twin: `with = |x| x + 1` is accepted')
+    add('predicate-path-then-closure', '#[nutype(validate(predicate = a::|x| *x > 0))]\npub struct T(i32);\n', {'fail': None, 'msg': None},
+        '`predicate = a::|x| ..` is refused')
+    add('predicate-path-twin', '#[nutype(validate(predicate = a::p))]\npub struct T(i32);\n', 'pass', 'twin: `predicate = a::p` is accepted')
+    for attr, what in (('validate(greater = 5), validate(less = 3)', 'two validate blocks'),
+                       ('validate(less = 3), derive(Debug), validate(greater = 5)', 'two validate blocks, not adjacent'),
+                       ('sanitize(with = |x| x + 1), sanitize(with = |x| x * 2)', 'two sanitize blocks'),
+                       ('derive(Debug), derive(Clone)', 'two derive blocks'),
+                       ('default = 1, derive(Default), default = 2', 'two defaults')):
+        add('repeat-' + what.replace(' ', '-').replace(',', ''), f'#[nutype({attr})]\npub struct T(i32);\n', {'fail': None, 'msg': r'(?i)more than once|duplicate|already|twice'},
+            f'{what}: refused instead of silently keeping the last one')
+    add('repeat-twin', '#[nutype(sanitize(with = |x| x + 1), validate(greater = 5, less = 30), derive(Debug, Clone, Default), default = 7)]\npub struct T(i32);\n', 'pass',
+        'twin: the same rules in single blocks are accepted')
+    # literal-then-operator bounds are refused, not altered
+    add('lit-then-op', '#[nutype(validate(less = 1 << 4))]\npub struct T(i32);\n', {'fail': None, 'msg': None}, '`less = 1 << 4` (literal followed by an operator) is refused, not read as `less = 1`')
+    add('lit-then-op-twin', '#[nutype(validate(less = (1 << 4)))]\npub struct T(i32);\n', 'pass', 'twin: the parenthesised expression is accepted')
+    add('neg-const', '#[nutype(validate(greater = -K))]\npub struct T(i32);\n', 'pass', '`greater = -K` is accepted (its meaning is checked on the MIR level)')
+    add('neg-float-const', '#[nutype(validate(greater = -KF))]\npub struct T(f64);\n', 'pass', '`greater = -KF` is accepted')
     return ws
